@@ -4,7 +4,9 @@ plus the launch geometry of KernelCpu / KernelPyopencl / KernelCupy).
 model level : TLC checks on spec/XoSpecialize.tla that executing the implementation-shaped Rewrite(src, target) under the
               launch geometry satisfies the CONTRACT (once per index in blocks, inactive lines never, unannotated lines
               once on CPU, qualifier words legal for the target) for every well-formed source of the bounded vocabulary
-              x n in 0..4 x CUDA block in {1,2,3} x 4 targets.
+              x n in 0..4 x CUDA block in {1,2,3} x 4 targets.  Every block has its OWN bound: n (the launch size) or
+              n/2 (a second variable of the kernel), so that blocks shorter than the launch and kernels whose blocks
+              have different bounds are covered (a statement's clause depends on its own block only).
 spec -> code: every source TLC enumerates (XoSpecializeGen, JSON) is rendered to C text in which every statement records
               (statement id, loop index) into a log, rewritten by the REAL specialize_source for the four targets,
               compared line class by line class with the model's Rewrite (difference = model-drift note only) and
@@ -38,6 +40,8 @@ OVER = XW - 2                 # index value reported for the overflow slot
 CHUNK = 400                   # kernels per translation unit
 
 # bounded instances; every profile is model-checked and exported completely.  Inc* = context sets per include file.
+# MaxHalf = how many blocks of one source may have the smaller bound n/2 (3 = no restriction at these lengths).
+MAXHALF = 3
 S_CU_OMP = '{"cuda","cpu_openmp"}'
 S_CL_SER = '{"opencl","cpu_serial"}'
 PROFILES = {
@@ -69,7 +73,7 @@ NTEXT = {"quick": 400, "thorough": 4000}
 
 
 def consts(p, part=0, nparts=1):
-    return (f"MaxLen = {p['MaxLen']} Ns = {{0,1,2,3,4}} Blocks = {{1,2,3}}\n CtxSets = {p['CtxSets']}\n IncFa = {p['IncFa']}\n"
+    return (f"MaxLen = {p['MaxLen']} Ns = {{0,1,2,3,4}} MaxHalf = {p.get('MaxHalf', MAXHALF)} Blocks = {{1,2,3}}\n CtxSets = {p['CtxSets']}\n IncFa = {p['IncFa']}\n"
             f" IncFb = {p['IncFb']}\n IncFc = {p['IncFc']}\n Kinds = {p['Kinds']}\n Part = {part} NParts = {nparts}\n")
 
 
@@ -132,6 +136,9 @@ def write_files(root):
     open(os.path.join(root, "xv_cwd.h"), "w").write(FILES["fa"])
 
 
+LIMH = ("nh", "nlimh", "n_half")
+
+
 def vname(v):
     return "-1" if v == -1 else f"v{v}"
 
@@ -158,8 +165,11 @@ def render(rec, kname, fixed=False, variant=0):
     out.append(f"/*gpukern*/ void {kname}(const int n, /*gpuglmem*/ int* /*restrict*/ xlog){{")
     # spellings of the annotations vary with the kernel (all are forms the repository's own sources use or whitespace variants)
     lim = ("n", "nlim", "n")[variant % 3]
+    limh = LIMH[variant % 3]                          # bound of the blocks with selector h = 1: a second variable, n/2
     if lim != "n":
         out.append(f"    const int {lim} = n;")
+    if any(l["k"] == "vec" and l["h"] == 1 for l in rec["src"]):
+        out.append(f"    const int {limh} = n/2;")
     sp = ("", " ", "\t")[variant % 3]
     for p, l in enumerate(rec["src"], 1):
         k = l["k"]
@@ -174,12 +184,13 @@ def render(rec, kname, fixed=False, variant=0):
             out.append(f"    XREC({sid[10 * p]}, {vname(e)}); //only_for_context {sp}{(' ' + sp).join(l['c'])}{sp}")
         elif k == "vec":
             v = f"v{10 * p}"
-            head = (f"    int {v} = 0; ", f"    for(int64_t {v}=0; {v}<{lim}; {v}++){{ ", "")[variant % 3]
+            bl = limh if l["h"] == 1 else lim             # the bound of THIS block
+            head = (f"    int {v} = 0; ", f"    for(int64_t {v}=0; {v}<{bl}; {v}++){{ ", "")[variant % 3]
             if variant % 3 == 1 and (variant // 3) % 2 == 1:
                 # whatever C text precedes the annotation on its line is replaced: the ANNOTATION defines the index set, also when
                 # the text is a loop header over other bounds
                 head = f"    for(int {v}=1; {v}<={lim}+2; {v}++){{ "
-            out.append(f"{head}//vectorize_over {sp}{v} {sp}{lim}{sp}")
+            out.append(f"{head}//vectorize_over {sp}{v} {sp}{bl}{sp}")
         elif k == "end":
             out.append(("    //end_vectorize", "    }//end_vectorize", "//end_vectorize ")[variant % 3])
         elif k == "inc":
@@ -263,11 +274,11 @@ def headers_for(target):
 
 # ----------------------------------------------------------------------------- line classes of real output (model-drift only)
 _RX = [
-    (re.compile(r"^\s*for \(int (\w+)=0; \1<(?:n|nlim|XV_LIM); \1\+\+\)\{ //autovectorized$"), "for"),
+    (re.compile(r"^\s*for \(int (\w+)=0; \1<(n|nlim|XV_LIM|nh|nlimh|n_half); \1\+\+\)\{ //autovectorized$"), "for"),
     (re.compile(r"^\s*int (\w+); //autovectorized$"), "decl"),
     (re.compile(r"^\s*(\w+)=get_global_id\(0\); //autovectorized$"), "gid"),
     (re.compile(r"^\s*(\w+)=blockDim\.x \* blockIdx\.x \+ threadIdx\.x;//autovectorized$"), "tid"),
-    (re.compile(r"^\s*if \((\w+)<(?:n|nlim|XV_LIM)\)\{$"), "guard"),
+    (re.compile(r"^\s*if \((\w+)<(n|nlim|XV_LIM|nh|nlimh|n_half)\)\{$"), "guard"),
 ]
 _STM = re.compile(r"(?:XREC\(|XRECQ\(q, |_h\(xlog, )([^,]+), ([^)]+)\)")
 _DEF = re.compile(r"^#define (XV_\w+)(?:\(j\))? (.*)$")
@@ -294,7 +305,7 @@ def classify(text, invsid):
 
     for ln in text.split("\n"):
         s = ln.strip()
-        if not s or s == "}" or s.startswith("#undef") or "void k" in s or "void s" in s or s.startswith("const int nlim"):
+        if not s or s == "}" or s.startswith("#undef") or "void k" in s or "void s" in s or re.fullmatch(r"const int \w+ = n(/2)?;", s):
             continue
         m = _DEF.match(s)
         if m:
@@ -310,6 +321,8 @@ def classify(text, invsid):
             m = rx.match(ln)
             if m:
                 res.append({"o": cls, "v": var(m.group(1))})
+                if cls in ("for", "guard"):                 # which bound the expansion tests: 1 = the half bound
+                    res[-1]["h"] = 1 if m.group(2) in LIMH else 0
                 break
         else:
             m = _STM.search(s)
@@ -490,8 +503,12 @@ def build_and_run(wd, t, kernels, geo, driver_o):
 
 
 def expected_runs(cls, t, n):
+    """mirror of XoSpecialize!StmtClause, only used to pre-sort records (the verdict is TLC's)"""
     if cls == "blk":
         return [(0, n - 1, 1)] if n > 0 else []
+    if cls == "blkh":             # block over n/2 in a launch over n: CPU and CUDA stop at the bound, OpenCL runs every work-item
+        lim = n if t == "opencl" else n // 2
+        return [(0, lim - 1, 1)] if lim > 0 else []
     if cls == "off":
         return []
     return [(-1, -1, 1)] if t.startswith("cpu") else None        # None = the contract does not say
@@ -597,8 +614,23 @@ def process_chunk(job):
             best[key] = (desc, rep, n)
     stats = collections.Counter()
     for r in recs:
+        hs = []                   # bound selectors of the kernel's blocks in order (the block of included file fb has the bound n)
         for ln in r["src"]:
             stats["kind:" + ln["k"]] += 1
+            if ln["k"] == "vec":
+                stats[f"kind:vec-bound-{'n/2' if ln['h'] else 'n'}"] += 1
+                hs.append(ln["h"])
+            elif ln["k"] == "inc" and ln["f"] == "fb":
+                hs.append(0)
+        if len(hs) > 1:
+            if any(a == 1 and b == 0 for i, a in enumerate(hs) for b in hs[i + 1:]):
+                stats["bounds:short-block-before-full-block"] += 1
+            if any(a == 0 and b == 1 for i, a in enumerate(hs) for b in hs[i + 1:]):
+                stats["bounds:full-block-before-short-block"] += 1
+            if all(hs):
+                stats["bounds:several-short-blocks"] += 1
+            if not any(hs):
+                stats["bounds:several-full-blocks"] += 1
         for t in TARGETS:
             for _, cl in r["tg"][t]["cls"]:
                 stats[f"class:{t}:{cl}"] += 1
@@ -610,7 +642,7 @@ def process_chunk(job):
 
 
 # ----------------------------------------------------------------------------- TLC trace validation
-TRACE_CFG = ('SPECIFICATION TraceSpec\nCONSTANTS MaxLen = 0 Ns = {} Blocks = {} CtxSets = {} IncFa = {} IncFb = {} IncFc = {} Kinds = {} '
+TRACE_CFG = ('SPECIFICATION TraceSpec\nCONSTANTS MaxLen = 0 Ns = {} MaxHalf = 0 Blocks = {} CtxSets = {} IncFa = {} IncFb = {} IncFc = {} Kinds = {} '
              'Part = 0 NParts = 1\nCHECK_DEADLOCK FALSE\n')
 
 
@@ -866,6 +898,9 @@ def _check(run):
         "blockDim/blockIdx/threadIdx are driven by a launch loop with the geometry the real KernelPyopencl/KernelCupy compute",
         "whether a real OpenCL/CUDA runtime accepts a launch with zero work-items/blocks (n=0) cannot be observed here",
         "loop variables are distinct per block within a kernel and context names are the four target names (usage rules)",
+        "the bound of a block is the launch size n (n_threads) or a smaller variable of the kernel (n/2); a block whose bound exceeds "
+        "the launch size is outside the vocabulary (the GPU expansions cannot cover it)",
+        "a block shorter than the launch on opencl: once per work-item (indices 0..n-1), C16 promises a bound guard on CUDA only",
         "nested include_file inside included files and only_for_context on vectorize_over/end_vectorize lines are outside the vocabulary",
         "text is compared as a sequence of newline-terminated lines (str.splitlines normalisation of CR/FF is not judged)",
     ]
@@ -992,11 +1027,15 @@ def _check(run):
         # vacuity: every class of expectation on every target, every line kind of the profiles
         run.notes["statement_classes_exercised"] = {k_[6:]: v_ for k_, v_ in stats.items() if k_.startswith("class:")}
         run.notes["line_kinds_enumerated"] = {k_[5:]: v_ for k_, v_ in stats.items() if k_.startswith("kind:")}
+        run.notes["kernels_with_several_blocks_by_bounds"] = {k_[7:]: v_ for k_, v_ in stats.items() if k_.startswith("bounds:")}
+        for k_ in ("short-block-before-full-block", "full-block-before-short-block", "several-full-blocks"):
+            if not stats.get("bounds:" + k_):
+                raise C.MachineryError(f"vacuous run: no kernel with {k_}")
         for t in TARGETS:
-            for cl in ("blk", "off", "free"):
+            for cl in ("blk", "blkh", "off", "free"):
                 if not stats.get(f"class:{t}:{cl}"):
                     raise C.MachineryError(f"vacuous run: no statement of class {cl} on {t}")
-        for k_ in ("plain", "mem", "fun", "vec", "end", "only", "inc"):
+        for k_ in ("plain", "mem", "fun", "vec", "vec-bound-n", "vec-bound-n/2", "end", "only", "inc"):
             if not stats.get("kind:" + k_):
                 raise C.MachineryError(f"vacuous run: no line of kind {k_}")
         ctx_recs = [json.loads(json.loads(ln)) for ln in reservoir]
